@@ -9,7 +9,7 @@ ID="$1"; V="$2"; shift 2
 SRC=/tmp/seed/$ID/out/$V
 OUT=/verif/seeded/$ID-$V
 S=/var/tmp/sv-$ID-$V
-export CARGO_TARGET_DIR=/var/tmp/sv-target CARGO_NET_OFFLINE=true
+export CARGO_TARGET_DIR=${SV_TARGET:-/var/tmp/sv-target} CARGO_NET_OFFLINE=true
 [ -f "$SRC/patch.diff" ] && [ -f "$SRC/demo.rs" ] || { echo "missing patch.diff/demo.rs in $SRC"; exit 2; }
 mkdir -p "$OUT"; cp "$SRC/patch.diff" "$SRC/demo.rs" "$OUT/"; [ -f "$SRC/meta.txt" ] && cp "$SRC/meta.txt" "$OUT/agent-meta.txt"
 rm -rf "$S"; mkdir -p "$S"; rsync -a --exclude target --exclude .git --exclude out /repo/ "$S/"
